@@ -704,6 +704,7 @@ func (k *core) checkEventsRefreshedOnEnable(rule string) {
 		for _, op := range chanOps(f) {
 			if op.Send && chanIsField(op.Chan, k.fUpdates) {
 				okV := false
+				op.Val = livePhiValue(op.Val, op.Instr.Block()) // the verified config as it comes out of a folded helper
 				for _, vs := range verified {
 					recv := vs.Recv
 					if vs.wrap == nil {
